@@ -18,6 +18,7 @@ LEVEL_TEXT = ("Error-context discipline on the MIR: (a) wherever a statement han
 LEVEL_NOTE = ("Not decided: that the cited locations are the right ones for every fault position as observed, and the rendered text.")
 LEVEL_TEXT += (" Every local binding in lazy mode goes through store.add (a thunk carrying the binding statement's context), on every successful path.")
 
+LEVEL_TEXT += (" The evaluation of a scoped definition's scope inside LazyScopedVariables::force is wrapped with that definition's stored debug info.")
 WC = r"ResultWithExecutionError<R>>::with_context$|ResultWithExecutionError::with_context$"
 
 
@@ -197,7 +198,10 @@ def run(prog, rep):
     # evaluation side
     ev_sites = [("tsg::execution::lazy::statements::LazyStatement", "evaluate", r"Lazy\w+::evaluate$", r"^Into::into\(Clone::clone\(&\*\*upvar:_ref__stmt\.debug_info\)\)$", 4),
                 ("tsg::execution::lazy::store::LazyStore", "evaluate", r"store::Thunk::force$", r"^Into::into\(upvar:debug_info\.0\)$", 1),
-                ("tsg::execution::lazy::store::LazyStore", "evaluate_all", r"store::Thunk::force$", r"^Into::into\(upvar:debug_info\.0\)$", 1)]
+                ("tsg::execution::lazy::store::LazyStore", "evaluate_all", r"store::Thunk::force$", r"^Into::into\(upvar:debug_info\.0\)$", 1),
+                # the scope of a scoped definition is evaluated when the name is forced — by whichever statement reads it first: a
+                # failure there belongs to the defining statement, whose context was stored with the definition
+                ("tsg::execution::lazy::store::LazyScopedVariables", "force", r"LazyValue::evaluate_as_syntax_node$", r"^Into::into\((Clone::clone\(&\*?)?upvar:(_ref__)?debug_info\.0\)?\)$", 1)]
     for ty, fn, callee_pat, ctx_pat, count in ev_sites:
         fl = [f for f in prog.shape_fns() if f.self_path == ty and f.name == fn]
         if len(fl) != 1:
